@@ -92,14 +92,25 @@ def run_dense(case, acc, order):
     spec = case['spec']
     with core.Scratch() as d:
         tr = dsgen.make_dataset(d / 'ds', spec)
+        # the directory is opened twice (the first open may leave cached files behind), and another
+        # public query runs on the model before the templates are asked for
+        m0 = load_model(tr['params_path'])
+        m0.close()
         m = load_model(tr['params_path'])
+        try:
+            if order % 2 == 0:
+                m.get_amplitudes_true()
+        except Exception:
+            pass
         try:
             acc.state()
             s = tr['spec']
             nt, nc = s['n_templates'], s['n_channels']
             pos = tr['channel_positions']
             shanks = tr['channel_shanks'] if tr['channel_shanks'] is not None else np.zeros(nc)
-            wmi = np.asarray(m.wmi)
+            # the inverse whitening matrix from the generator's matrix, not from the model
+            wmi = np.eye(s['n_channels']) if tr['wm'] is None else (
+                tr['wmi_file'] if tr.get('wmi_file') is not None else np.linalg.inv(tr['wm']))
             only = case.get('only_op')
             opi = -1
             for ncl, model_thr in [(n_, 0) for n_ in case['n_closest']] + [(case['n_closest'][0], 0.5)]:
@@ -208,12 +219,21 @@ def run_sparse(case, acc, order):
     spec = case['spec']
     with core.Scratch() as d:
         tr = dsgen.make_dataset(d / 'ds', spec)
+        m0 = load_model(tr['params_path'])
+        m0.close()
         m = load_model(tr['params_path'])
+        try:
+            if order % 2 == 0:
+                m.get_amplitudes_true()
+        except Exception:
+            pass
         try:
             acc.state()
             s = tr['spec']
             nt = s['n_templates']
-            wmi = np.asarray(m.wmi)
+            # the inverse whitening matrix from the generator's matrix, not from the model
+            wmi = np.eye(s['n_channels']) if tr['wm'] is None else (
+                tr['wmi_file'] if tr.get('wmi_file') is not None else np.linalg.inv(tr['wm']))
             cols = tr['templates_cols']
             data = tr['templates_data']
             only = case.get('only_op')
